@@ -13,7 +13,8 @@ theorem run_snoc (s : Seq K T Op Req Ans) (ops : List Op) (op : Op) :
 
 /-- relation between shared state and the commit log, depending on where the holder of `knownRulesMutex` is -/
 def holderOk (s : Seq K T Op Req Ans) (c : Config K T Op Req Ans) : Thread K T Op Req Ans → Prop
-  | .writer _ .locked _ | .writer _ .failed _ => (c.known, c.index) = run s c.log
+  | .writer _ .locked _ => (c.known, c.index) = run s c.log
+  | .writer op .failed _ => (c.known, c.index) = run s c.log ∧ s.apply (run s c.log) op = none
   | .writer _ .readK loc => (c.known, c.index) = run s c.log ∧ loc.1 = c.known
   | .writer _ .cloned loc => (c.known, c.index) = run s c.log ∧ loc = (c.known, c.index)
   | .writer op .computed st' => (c.known, c.index) = run s c.log ∧ s.apply (run s c.log) op = some st'
@@ -121,11 +122,11 @@ theorem inv_step (s : Seq K T Op Req Ans) (c c' : Config K T Op Req Ans)
     refine inv_local s c i op _ _ _ _ hi h hl (by simp [inCS]) ?_
     intro hh
     simp only [holderOk] at hh ⊢
-    exact hh.1
+    exact ⟨hh.1, by rw [← hh.1, ← hh.2]; exact ha⟩
   | wFail i op loc h hl =>
     have hh := hi.held i hl
     rw [h] at hh; simp only [holderOk] at hh
-    refine ⟨fun _ => hh, by simp, ?_, hi.index, ?_, ?_⟩
+    refine ⟨fun _ => hh.1, by simp, ?_, hi.index, ?_, ?_⟩
     · refine outside_upd c i _ _ hi.outside ?_ (by simp [inCS])
       intro j hji _ hc; rw [hl] at hc; exact hji (Option.some.inj hc).symm
     · exact answers_upd s c c.log i _ ⟨[], by simp⟩ hi.answers (by simp)
